@@ -187,8 +187,37 @@ def check_version(ver, failures, counter):
                                      {'kind': 'writer', 'version': ver, 'value_kind': kname}))
 
 
+def nested_lower_version(failures, counter):
+    """a nested grid declaring a pre-3.0 version inside a 3.0 document (whose grammar admits its cells): both readers must reject 3.0-only cells in it"""
+    import hszinc
+    cells = {'na': ('NA', 'z:'), 'list': ('[1]', [1]), 'dict': ('{a:1}', {'a': 'n:1'}), 'xstr': ('hex("00")', 'x:hex:00'),
+             'grid': ('<<ver:"3.0"\nx\n>>', {'meta': {'ver': '3.0'}, 'cols': [{'name': 'x'}], 'rows': []})}
+    for inner in ('2.0', '1.0', '2.0.0'):
+        for kind, (z, j) in cells.items():
+            counter[0] += 2
+            ztext = 'ver:"3.0"\nouter\n<<ver:"%s"\nx\n%s\n>>\n' % (inner, z)
+            jdoc = {'meta': {'ver': '3.0'}, 'cols': [{'name': 'outer'}], 'rows': [{'outer': {'meta': {'ver': inner}, 'cols': [{'name': 'x'}], 'rows': [{'x': j}]}}]}
+            for mode, src, label in ((hszinc.MODE_ZINC, ztext, 'ZINC'), (hszinc.MODE_JSON, jdoc, 'JSON')):
+                box = {}
+
+                def go(mode=mode, src=src, box=box):
+                    g = hszinc.parse(src, mode=mode)
+                    ng = g[0]['outer']
+                    box['v'] = (str(ng.version), [type(r.get('x')).__name__ for r in ng])
+                r = _try(go)
+                inp = {'kind': 'nested_lower', 'inner': inner, 'cell': kind, 'format': label}
+                if r == 'ok' and pre3(box['v'][0]):
+                    failures.append({'id': 'C10/nested-lower-version/%s/%s/%s' % (label, inner, kind),
+                                     'what': 'the %s reader returned a nested grid labelled %s holding a %s cell' % (label, box['v'][0], kind), 'input': inp})
+                elif r not in ('ok', 'ValueError'):
+                    failures.append({'id': 'C10/nested-lower-version/%s/%s/%s' % (label, inner, kind), 'what': 'the %s reader raised %s' % (label, r), 'input': inp})
+
+
 def bounded(tier, seed):
     failures, counter = [], [0]
+    nl = []
+    nested_lower_version(nl, counter)
+    failures += [(f['id'], f['what'], f['input']) for f in nl]
     for ver in VERSIONS:
         check_version(ver, failures, counter)
     out = [{'id': fid, 'what': what, 'input': inp} for fid, what, inp in failures]
@@ -196,6 +225,11 @@ def bounded(tier, seed):
 
 
 def replay(inp):
+    if inp.get('kind') == 'nested_lower':
+        fl, c = [], [0]
+        nested_lower_version(fl, c)
+        hit = [f['what'] for f in fl if f['input'].get('inner') == inp.get('inner') and f['input'].get('cell') == inp.get('cell')] or [f['what'] for f in fl]
+        return {'reproduced': bool(hit), 'detail': hit[:3]}
     failures, counter = [], [0]
     k = inp.get('kind')
     if k == 'column_store':
